@@ -126,6 +126,11 @@ def run(ctx, col, tier):
                         "V_frustum = pi h (r1^2 + r1 r2 + r2^2)/3; V_lens = pi (r1+r2-d)^2 "
                         "(d^2 + 2d(r1+r2) - 3(r1-r2)^2)/(12 d)",
                         "the eps tolerance of the guards is treated as 0"]
+    col.rule("R-TYPE", "geometric typing (kind x degree, sa/geo.py) of the closed forms and of the code that feeds them: centres enter only through "
+             "differences, every length argument is a length (degree 1), the result is a pose-independent volume (degree 3)", floor=6)
+    from . import geosinks
+    geo, res = geosinks.check_sinks(ctx, col, "R-TYPE", only=lambda q: "volumetric_object" in q)
+    geosinks.report(col, "R-TYPE", res, repo=ctx.repo)
     col.guard(forms, ctx, col)
     col.guard(lens_cells, ctx, col)
     col.guard(concentric, ctx, col)
@@ -473,6 +478,22 @@ def concentric(ctx, col):
                     pairs.append(k)
         rets = [norm_src(s) for s in ifs[0].body]
         ok = sorted(pairs) == ["1", "2"] and rets == ["return self.calc_concentric_intersect_volume(self.obj1, self.obj2)"]
+    # each conjunction of the guard must speak about ONE end of the frustum: a centre compared with end k together with the radius of end k
+    import re as _re
+    for t_ in [i_.test for i_ in ifs]:
+        conjs = [v for v in (t_.values if isinstance(t_, ast.BoolOp) and isinstance(t_.op, ast.Or) else [t_]) if isinstance(v, ast.BoolOp) and isinstance(v.op, ast.And)]
+        for v in conjs:
+            ends = {}
+            for a_ in ast.walk(v):
+                if isinstance(a_, ast.Attribute):
+                    m_ = _re.fullmatch(r"(c|r)([12])", a_.attr)
+                    if m_:
+                        ends.setdefault(m_.group(1), set()).add(m_.group(2))
+            if ends.get("c") and ends.get("r") and len(ends["c"]) == 1 and len(ends["r"]) == 1:
+                col.check(ends["c"] == ends["r"], "R-LADDER", g.qualname, g.loc(v), "a conjunct of the concentric guard compares centre and radius of the same end",
+                          f"end {sorted(ends['c'])[0]}", f"`{norm_src(v)[:110]}` compares the sphere's centre with end {sorted(ends['c'])[0]} but its radius with end "
+                          f"{sorted(ends['r'])[0]}: a sphere sitting on one end with the other end's radius is taken for concentric (and the true concentric case is not)",
+                          stmt=f"guard-end:{sorted(ends['c'])[0]}", definite=True)
     last = g.node.body[-1]
     ok = ok and isinstance(last, ast.Return) and norm_src(last.value) == "super()._get_volume()"
     col.judge(len(ifs) == 1, ok, "R-LADDER", g.qualname, g.loc(), "closed form iff the sphere coincides with an end (centre and radius of the same end); "
@@ -600,6 +621,48 @@ def ladders(ctx, col):
         col.check(sorted(got) == sorted(arms) and last == tail, R_, q, d.loc(),
                   f"{q.rsplit('.', 2)[-2]}.{d.name}: closed-form classes with the sphere as first operand; anything else falls back to sampling",
                   str(got), f"ladder is {got} then `{last}`; expected {arms} then `{tail}`", stmt="ladder")
+    # operand typing: the composite classes are generic in (first operand, second operand); every construction site must pass
+    # operands of those classes, as established by `self` and by the enclosing isinstance test
+    declared = {}
+    for c in repo.classes.values():
+        if c.module.name != MOD:
+            continue
+        for b in c.node.bases:
+            if isinstance(b, ast.Subscript) and isinstance(b.slice, ast.Tuple) and len(b.slice.elts) == 2 \
+                    and all(isinstance(e, ast.Name) and f"{MOD}.{e.id}" in repo.classes for e in b.slice.elts):
+                declared[c.name] = tuple(e.id for e in b.slice.elts)
+    n_sites = 0
+    for d in repo.all_defs():
+        if d.module.name != MOD or d.cls is None or d.is_lambda:
+            continue
+        for call in own_nodes(d):
+            if not (isinstance(call, ast.Call) and isinstance(call.func, ast.Name) and call.func.id in declared and len(call.args) == 2):
+                continue
+            n_sites += 1
+            want_t = declared[call.func.id]
+            got_t = []
+            for a in call.args:
+                t = None
+                if isinstance(a, ast.Name) and a.id == "self":
+                    t = d.cls.name
+                elif isinstance(a, ast.Name):
+                    x = repo.parent(call)
+                    prev = call
+                    while x is not None and x is not d.node:
+                        if isinstance(x, ast.If) and any(prev is y for y in x.body) and isinstance(x.test, ast.Call) and dotted(x.test.func) == "isinstance" \
+                                and len(x.test.args) == 2 and isinstance(x.test.args[0], ast.Name) and x.test.args[0].id == a.id and isinstance(x.test.args[1], ast.Name):
+                            t = x.test.args[1].id
+                            break
+                        prev, x = x, repo.parent(x)
+                got_t.append(t)
+            what = f"{d.cls.name}.{d.name}: `{norm_src(call)}` passes ({want_t[0]}, {want_t[1]}) as the class declares"
+            if None in got_t:
+                col.unresolved(R_, d.qualname, d.loc(call), what, f"operand classes not established ({got_t})", stmt=f"operands:{call.func.id}")
+            else:
+                col.check(tuple(got_t) == want_t, R_, d.qualname, d.loc(call), what, str(got_t),
+                          f"`{norm_src(call)}` passes ({got_t[0]}, {got_t[1]}) to {call.func.id}, which is declared over ({want_t[0]}, {want_t[1]}): its closed form "
+                          f"reads `.center/.radius` of the first and `.c1/.r1/.c2/.r2` of the second operand", stmt=f"operands:{call.func.id}", definite=True)
+    col.analysed["composite_construction_sites"] = n_sites
     # the composite classes declare their operand types in the same order
     for cls, base in (("VolSphere2Intersection", "VolSDFIntersection[VolSphere, VolSphere]"), ("VolSphere2Union", "VolSDFUnion[VolSphere, VolSphere]"),
                       ("VolSphereFrustumConeIntersection", "VolSDFIntersection[VolSphere, VolFrustumCone]"),
